@@ -258,7 +258,7 @@ Proof.
     apply (@tuple2_ord_ok (mr A) (mr B) SA SB (mi A) (mi B) IA IB ca cb (HOA ca eq_refl) (HOB cb eq_refl)).
 Qed.
 
-Lemma mokw_slice M (O : IC (idx (mr M))) SP IS (HO : ICOk O) : @MOKw M SP IS ->
+Lemma mokw_slice M (O : IC (idx (mr M))) {OS : ICSer O} SP IS (HO : ICOk O) : @MOKw M SP IS ->
   @MOKw (m_slice M O) (@slice_spec (mr M) O SP HO) (@slice_ispec (mr M) SP O HO (mi M)).
 Proof.
   intros [HR HI HOr]. constructor.
@@ -267,17 +267,17 @@ Proof.
   - intros C HC. cbn [m_ord m_slice] in HC. apply option_map_some in HC. destruct HC as (c & Hc & ->).
     apply (@slice_ord_ok (mr M) SP HR O HO (mi M) IS HI c (HOr c Hc)).
 Qed.
-Lemma mok_slice M (O : IC (idx (mr M))) : MOK M -> ICOk O -> MOK (m_slice M O).
-Proof. intros (SP & IS & H) HO. eexists _, _. apply (@mokw_slice M O SP IS HO H). Qed.
+Lemma mok_slice M (O : IC (idx (mr M))) {OS : ICSer O} : MOK M -> ICOk O -> MOK (m_slice M O).
+Proof. intros (SP & IS & H) HO. eexists _, _. apply (@mokw_slice M O OS SP IS HO H). Qed.
 Lemma mok_slice_vec M isz : MOK M -> MOK (m_slice_vec M isz).
 Proof.
-  intros HM. destruct (@mok_slice M (vec_ic (idx (mr M)) isz) HM (vec_ic_ok _ _)) as (SP & IS & [HR HI HO]).
+  intros HM. destruct (@mok_slice M (vec_ic (idx (mr M)) isz) _ HM (vec_ic_ok _ _)) as (SP & IS & [HR HI HO]).
   exists SP, IS. constructor; [exact HR|exact HI|exact HO].
 Qed.
 
-Lemma mdok_slice M (O : IC (idx (mr M))) : MOK M -> ICOk O -> @MDOK (m_slice M O) (slice_pair (mr M) O).
+Lemma mdok_slice M (O : IC (idx (mr M))) {OS : ICSer O} : MOK M -> ICOk O -> @MDOK (m_slice M O) (slice_pair (mr M) O).
 Proof.
-  intros (SP & IS & H) HO. eexists _, _. split; [apply (@mokw_slice M O SP IS HO H)|]. constructor.
+  intros (SP & IS & H) HO. eexists _, _. split; [apply (@mokw_slice M O OS SP IS HO H)|]. constructor.
   destruct H as [HR _ _].
   refine (@Build_Dense (slice (mr M) O) (@slice_spec (mr M) O SP HO) (slice_pair (mr M) O)
             (fun x : ic_st O * st (mr M) => length (ic_abs (fst x))) _ _ _ _ _ _).
@@ -293,7 +293,7 @@ Proof.
 Qed.
 Lemma mdok_slice_vec M isz : MOK M -> @MDOK (m_slice_vec M isz) (slice_pair (mr M) (vec_ic (idx (mr M)) isz)).
 Proof.
-  intros HM. destruct (@mdok_slice M (vec_ic (idx (mr M)) isz) HM (vec_ic_ok _ _)) as (SP & IS & [HR HI HO] & D).
+  intros HM. destruct (@mdok_slice M (vec_ic (idx (mr M)) isz) _ HM (vec_ic_ok _ _)) as (SP & IS & [HR HI HO] & D).
   exists SP, IS. split; [constructor; [exact HR|exact HI|exact HO]|exact D].
 Qed.
 
@@ -307,7 +307,7 @@ Proof.
     apply (@collapse_ord_ok (mr M) (m_veq M) SP (mi M) IS c (HO c Hc)).
 Qed.
 
-Lemma mok_consec M PI (O : IC nat) chk : @MDOK M PI -> ICOk O -> MOK (@m_consec M PI O chk).
+Lemma mok_consec M PI (O : IC nat) {OS : ICSer O} chk : @MDOK M PI -> ICOk O -> MOK (@m_consec M PI O OS chk).
 Proof.
   intros (SP & IS & [HR HI HOr] & [D]) HO.
   exists (@consec_spec (mr M) SP PI D O HO chk), (@consec_ispec (mr M) PI O chk (mi M) IS). constructor.
@@ -317,7 +317,7 @@ Proof.
     apply (@consec_ord_ok (mr M) SP HR PI D O HO chk (mi M) IS c (HOr c Hc)).
 Qed.
 
-Lemma mok_columns M (O : IC nat) chk csz isz : MOK M -> ICOk O -> MOK (m_columns M O chk csz isz).
+Lemma mok_columns M (O : IC nat) {OS : ICSer O} chk csz isz : MOK M -> ICOk O -> MOK (m_columns M O chk csz isz).
 Proof.
   intros (SP & IS & [HR HI HOr]) HO.
   exists (@columns_spec (mr M) SP O HO chk), (@columns_ispec (mr M) SP O chk (mi M)). constructor.
@@ -396,4 +396,81 @@ Proof.
       try (exfalso; apply H21; reflexivity); try (exfalso; apply H29; reflexivity);
       inversion He; subst; clear He; mok. }
   destruct HM as (SP & IS & [HR HI HO]). exists SP, IS. auto.
+Qed.
+
+(** * the serialised form (C16): for every catalogue entry whose Rust type derives Serialize, the
+    name-free tree the model computes from its state determines the state (and the index) *)
+Definition SOK (M : MRegion) : Prop := forall S, m_ser M = Some S -> SerInj S.
+Definition eto_inj (E : Elem) : Prop := injective (e_to E).
+Lemma eto_word bits : eto_inj (e_word bits).
+Proof. intros x y H. cbn in H. inversion H. reflexivity. Qed.
+Lemma eto_unit : eto_inj e_unit.
+Proof. intros [] [] _. reflexivity. Qed.
+Lemma eto_f64 : eto_inj e_f64.
+Proof. intros x y H. cbn in H. inversion H. reflexivity. Qed.
+
+Lemma sok_owned E : eto_inj E -> SOK (m_owned E).
+Proof. intros HE S HS. cbn in HS. inversion HS; subst. apply owned_ser_inj. exact HE. Qed.
+Lemma sok_mirror E : eto_inj E -> SOK (m_mirror E).
+Proof. intros HE S HS. cbn in HS. inversion HS; subst. apply mirror_ser_inj. exact HE. Qed.
+Lemma sok_vec E : eto_inj E -> SOK (m_vec E).
+Proof. intros HE S HS. cbn in HS. inversion HS; subst. apply vec_region_ser_inj. exact HE. Qed.
+Lemma sok_string wf M : SOK M -> SOK (m_string wf M).
+Proof. intros HM S HS. cbn [m_ser m_string] in HS. apply option_map_some in HS. destruct HS as (s & Hs & ->). apply (@string_ser_inj _ s (HM s Hs)). Qed.
+Lemma sok_option M : SOK M -> SOK (m_option M).
+Proof. intros HM S HS. cbn [m_ser m_option] in HS. apply option_map_some in HS. destruct HS as (s & Hs & ->). apply (@option_ser_inj _ s (HM s Hs)). Qed.
+Lemma sok_result A B : SOK A -> SOK B -> SOK (m_result A B).
+Proof.
+  intros HA HB S HS. cbn [m_ser m_result] in HS.
+  destruct (m_ser A) as [a|] eqn:Ea; [|discriminate]. destruct (m_ser B) as [b|] eqn:Eb; [|discriminate].
+  inversion HS; subst. apply (@result_ser_inj _ _ a b (HA a Ea) (HB b Eb)).
+Qed.
+Lemma sok_tuple2 A B : SOK A -> SOK B -> SOK (m_tuple2 A B).
+Proof.
+  intros HA HB S HS. cbn [m_ser m_tuple2] in HS.
+  destruct (m_ser A) as [a|] eqn:Ea; [|discriminate]. destruct (m_ser B) as [b|] eqn:Eb; [|discriminate].
+  inversion HS; subst. apply (@tuple2_ser_inj _ _ a b (HA a Ea) (HB b Eb)).
+Qed.
+Lemma sok_slice M (O : IC (idx (mr M))) {OS : ICSer O} : SOK M -> ICSerInj O -> SOK (m_slice M O).
+Proof.
+  intros HM HO S HS. cbn [m_ser m_slice] in HS. apply option_map_some in HS. destruct HS as (s & Hs & ->).
+  apply (@slice_ser_inj (mr M) O OS HO s (HM s Hs)).
+Qed.
+Lemma sok_slice_vec M isz : SOK M -> SOK (m_slice_vec M isz).
+Proof. intros HM S HS. exact (@sok_slice M (vec_ic (idx (mr M)) isz) _ HM (@vec_ic_ser_inj (idx (mr M)) isz) S HS). Qed.
+Lemma sok_collapse M : SOK M -> SOK (m_collapse M).
+Proof.
+  intros HM S HS. cbn [m_ser m_collapse] in HS. apply option_map_some in HS. destruct HS as (s & Hs & ->).
+  apply (@collapse_ser_inj (mr M) (m_veq M) s (HM s Hs)).
+Qed.
+Lemma sok_consec M PI (O : IC nat) {OS : ICSer O} chk : SOK M -> ICSerInj O -> SOK (@m_consec M PI O OS chk).
+Proof.
+  intros HM HO S HS. cbn [m_ser m_consec] in HS. apply option_map_some in HS. destruct HS as (s & Hs & ->).
+  apply (@consec_ser_inj (mr M) PI O OS HO chk s (HM s Hs)).
+Qed.
+Lemma sok_columns M (O : IC nat) {OS : ICSer O} chk csz isz : SOK M -> ICSerInj O -> SOK (m_columns M O chk csz isz).
+Proof.
+  intros HM HO S HS. cbn [m_ser m_columns] in HS. apply option_map_some in HS. destruct HS as (s & Hs & ->).
+  apply (@columns_ser_inj (mr M) O OS HO chk s (HM s Hs)).
+Qed.
+Lemma sok_codec : SOK m_codec.
+Proof. intros S HS. discriminate HS. Qed.
+Lemma sok_huffman bits : SOK (m_huffman bits).
+Proof. intros S HS. discriminate HS. Qed.
+
+Ltac sok :=
+  repeat first
+    [ apply sok_codec | apply sok_huffman
+    | (apply sok_owned; first [apply eto_word | apply eto_unit | apply eto_f64])
+    | (apply sok_mirror; first [apply eto_word | apply eto_unit | apply eto_f64])
+    | (apply sok_vec; first [apply eto_word | apply eto_unit | apply eto_f64])
+    | apply sok_string | apply sok_option | apply sok_result | apply sok_tuple2
+    | apply sok_slice_vec | apply sok_slice | apply sok_columns | apply sok_consec | apply sok_collapse
+    | apply vec_ic_ser_inj | apply index_list_ser_inj | apply index_optimized_ser_inj | apply ic_nat_ser_inj ].
+
+Theorem catalogue_ser_inj chk szs n e : entry chk szs n = Some e -> forall S, m_ser e = Some S -> SerInj S.
+Proof.
+  intros He. change (SOK e). unfold entry in He.
+  destruct n as [|p]; [inversion He; subst; sok|].
+  repeat (destruct p as [p|p|]; try discriminate He); inversion He; subst; clear He; sok.
 Qed.
